@@ -7,6 +7,8 @@ import (
 	"testing"
 	"time"
 
+	"github.com/vx-labs/mqtt-protocol/packet"
+
 	"verif/internal/vk"
 )
 
@@ -33,6 +35,8 @@ func c17alphabet() []string {
 		// names that are opaque to MQTT but that a path-cleaning prefix function would rewrite: '..' into the
 		// other tenant's mount point, '.', and an empty level ("@O" is replaced by the other tenant's mount point)
 		out = append(out, t+":pub:../@O/t:-", t+":sub:../@O/#", t+":pub:./t:-", t+":pub:t//u:-")
+		// a QoS 2 publish started now and released later (other events happen while the message waits in the broker)
+		out = append(out, t+":q2start:t", t+":q2release")
 		out = append(out, t+":willdrop", t+":dupid")
 	}
 	return out
@@ -100,7 +104,7 @@ func runC17(t *testing.T, p c17path, events []string, direct func(sig, msg strin
 	nodeOf := map[byte]int{'A': 1, 'B': p.Nodes}
 	main := map[byte]*Client{}
 	for _, tn := range []byte{'A', 'B'} {
-		c := w.NewClient(string(tn)+"1", nodeOf[tn], AckAll)
+		c := w.NewClient(string(tn)+"1", nodeOf[tn], AckNone) // QoS 0 subscriptions only; PUBREL is sent by the script
 		if c.Connect(ConnectOpts{ClientID: "id" + string(tn), KeepAlive: 600, User: "mp:" + mount[tn]}) != 0 {
 			return obs, false
 		}
@@ -108,6 +112,7 @@ func runC17(t *testing.T, p c17path, events []string, direct func(sig, msg strin
 	}
 	w.Step()
 	published := map[byte]map[string]bool{'A': {}, 'B': {}} // tenant -> "topic|payload"
+	pendingQ2 := map[byte][]int32{}
 	perTenant := map[byte]int{}
 	for _, ev := range events {
 		otherMount := mount['A']
@@ -128,6 +133,17 @@ func runC17(t *testing.T, p c17path, events []string, direct func(sig, msg strin
 			payload := fmt.Sprintf("%c:%d", tn, k)
 			published[tn][parts[2]+"|"+payload] = true
 			c.Publish(parts[2], payload, 0, parts[3] == "r", 0)
+		case "q2start":
+			payload := fmt.Sprintf("%c:q2-%d", tn, k)
+			published[tn][parts[2]+"|"+payload] = true
+			id := int32(200 + k)
+			c.Send(&packet.Publish{Header: &packet.Header{Qos: 2}, Topic: []byte(parts[2]), Payload: []byte(payload), MessageId: id})
+			pendingQ2[tn] = append(pendingQ2[tn], id)
+		case "q2release":
+			for _, id := range pendingQ2[tn] {
+				c.Send(&packet.PubRel{Header: &packet.Header{}, MessageId: id})
+			}
+			pendingQ2[tn] = nil
 		case "willdrop":
 			x := w.NewClient(fmt.Sprintf("%c-w%d", tn, k), nodeOf[tn], AckAll)
 			x.Connect(ConnectOpts{ClientID: fmt.Sprintf("w-%c-%d", tn, k), KeepAlive: 600, User: "mp:" + mount[tn], WillTopic: "t", WillMsg: fmt.Sprintf("%c:will%d", tn, k)})
